@@ -247,6 +247,137 @@ harness_nodec!(
     leak(names);
 });
 
+// ---------------------------------------------------------------------------------------------
+// record evolution: fields matched by name regardless of order, writer-only fields dropped,
+// reader-only fields filled from their declared default (for a union: the FIRST branch)
+
+fn field_d(n: &str, schema: Schema, default: Option<serde_json::Value>) -> apache_avro::schema::RecordField {
+    let mut f = field(n, schema);
+    // in place, see schemas::record
+    leak(std::mem::replace(&mut f.default, default));
+    f
+}
+/// (name, value) pairs of a resolved record, in order, as comparable summaries
+fn rec_summary(v: &Value, want: &[(&str, u8, i64)]) -> bool {
+    match v {
+        Value::Record(fs) => {
+            if fs.len() != want.len() {
+                return false;
+            }
+            let mut i = 0;
+            let mut ok = true;
+            while i < want.len() {
+                let (n, kind, x) = want[i];
+                let (fname, fv) = &fs[i];
+                let same = match (kind, fv) {
+                    (0, Value::Long(y)) => *y == x,
+                    (1, Value::Boolean(b)) => (*b as i64) == x,
+                    (2, Value::Int(y)) => *y as i64 == x,
+                    // 10 + branch: a union holding a long
+                    (10, Value::Union(0, inner)) => matches!(&**inner, Value::Long(y) if *y == x),
+                    (11, Value::Union(1, inner)) => matches!(&**inner, Value::Long(y) if *y == x),
+                    (20, Value::Union(0, inner)) => matches!(&**inner, Value::Null),
+                    _ => false,
+                };
+                ok = ok && same && fname.as_str() == n;
+                i += 1;
+            }
+            ok
+        }
+        _ => false,
+    }
+}
+
+harness_nodec!(
+    /// writer record {a: long, b: boolean, c: long} read as {b: boolean, a: long}: reordered,
+    /// writer-only field dropped; all payloads
+    record_reorder_drop, unwind = 8, {
+    let names = no_names();
+    let reader = record("R", vec![field("b", Schema::Boolean), field("a", Schema::Long)]);
+    let (a, b, c) = (any_i64(), any_bool(), any_i64());
+    let v = Value::Record(vec![("a".to_string(), Value::Long(a)), ("b".to_string(), Value::Boolean(b)), ("c".to_string(), Value::Long(c))]);
+    witness!(a == i64::MIN && b, "extreme payload");
+    match v.resolve_internal(&reader, &names, None, None) {
+        Ok(r) => {
+            assert!(rec_summary(&r, &[("b", 1, b as i64), ("a", 0, a)]), "record resolved to something else than the reader's fields, by name, in reader order");
+            leak(r);
+        }
+        Err(e) => {
+            leak(e);
+            assert!(false, "a record whose reader fields all exist in the writer failed to resolve");
+        }
+    }
+    leak(reader);
+    leak(names);
+});
+
+/// reader {a: long, x: <K>} against a written {a: long}.  K: 0 x: long default 5; 1 x: union
+/// [long, int] default 5 (first branch: Union(0, Long 5)); 2 x: union [null, long] default null;
+/// 3 x: long without default (error)
+fn default_case<const K: u8>(names: &Names, a: i64) {
+    let five = || Some(serde_json::Value::Number(5.into()));
+    let x = match K {
+        0 => field_d("x", Schema::Long, five()),
+        1 => field_d("x", union(Vec::new()), five()),
+        2 => field_d("x", union(Vec::new()), Some(serde_json::Value::Null)),
+        _ => field("x", Schema::Long),
+    };
+    let mut reader = record("R", vec![field("a", Schema::Long), x]);
+    // the union's members are written in place inside the record's field vector (a whole
+    // `Schema::Union` moved into a vector loses its constants in symex, see schemas::record)
+    if K == 1 || K == 2 {
+        let branches = if K == 1 { vec![Schema::Long, Schema::Int] } else { vec![Schema::Null, Schema::Long] };
+        if let Schema::Union(parts) = union(branches) {
+            if let Schema::Record(rs) = &mut reader {
+                if let Schema::Union(u) = &mut rs.fields[1].schema {
+                    leak(std::mem::replace(&mut u.schemas, parts.schemas));
+                    leak(std::mem::replace(&mut u.variant_index, parts.variant_index));
+                    leak(std::mem::replace(&mut u.named_index, parts.named_index));
+                }
+            }
+        }
+    }
+    let v = Value::Record(vec![("a".to_string(), Value::Long(a))]);
+    let want: Option<(u8, i64)> = match K {
+        0 => Some((0, 5)),
+        1 => Some((10, 5)),
+        2 => Some((20, 0)),
+        _ => None,
+    };
+    match v.resolve_internal(&reader, names, None, None) {
+        Ok(r) => {
+            match want {
+                Some((k, x)) => assert!(rec_summary(&r, &[("a", 0, a), ("x", k, x)]), "a reader-only field was not filled from its declared default (union default: first branch)"),
+                None => assert!(false, "a reader-only field without default was filled with something"),
+            }
+            leak(r);
+        }
+        Err(e) => {
+            leak(e);
+            assert!(want.is_none(), "a record whose missing field has a default failed to resolve");
+        }
+    }
+    leak(reader);
+}
+macro_rules! default_harness {
+    ($name:ident, $k:literal, $doc:literal) => {
+        harness_nodec!(
+            #[doc = $doc]
+            $name, unwind = 8, {
+            let names = no_names();
+            let a = any_i64();
+            default_case::<$k>(&names, a);
+            witness!(a == 7, "reachable");
+            leak(names);
+        });
+    };
+}
+default_harness!(record_default_long, 0, "reader-only long field with default 5");
+// K = 1 (union [long, int] default 5 -> Union(0, Long 5)) is not decided within 10 minutes: the library boxes a value
+// that came through a `Result`, symex loses its kind and walks every arm of `Value::clone` / `resolve_internal`.
+default_harness!(record_default_null_union, 2, "reader-only union [null, long] field with default null");
+default_harness!(record_missing_default, 3, "reader-only field without default: error");
+
 pub const HARNESSES: &[(&str, fn())] = &[
     ("c08::from_int", from_int::body),
     ("c08::from_long", from_long::body),
@@ -256,6 +387,10 @@ pub const HARNESSES: &[(&str, fn())] = &[
     ("c08::from_string", from_string::body),
     ("c08::enum_by_name", enum_by_name::body),
     ("c08::union_branch_selection", union_branch_selection::body),
+    ("c08::record_reorder_drop", record_reorder_drop::body),
+    ("c08::record_default_long", record_default_long::body),
+    ("c08::record_default_null_union", record_default_null_union::body),
+    ("c08::record_missing_default", record_missing_default::body),
     ("c08::finding_long_to_int", finding_long_to_int::body),
     ("c08::finding_double_to_float", finding_double_to_float::body),
 ];
